@@ -207,7 +207,7 @@ class Interp:
             elif isinstance(e, dict) and "f" in e:
                 if base == ("SELF",):
                     base = ("F", self.prefix + e.get("name"))
-                elif base[0] in ("L", "F"):
+                elif base[0] in ("L", "F", "D"):
                     base = ("P", base, e.get("name") if e.get("name") is not None else e["f"])
                 else:
                     return None
